@@ -41,8 +41,9 @@ def gen_tree(rng, *, depth=3, links=True, maxentries=14, names="simple"):
             entries.append((rel, "file", (arclib.gen_content(rng, size), mode)))
             files.append(rel)
         else:
-            tgt = rng.choice(files + [d for d in dirs if d])
             here = os.path.dirname(rel)
+            # from inside a subdirectory the top of the tree itself is a legal target (upward-but-inside)
+            tgt = rng.choice(files + [d for d in dirs if d] + ([".", "."] if here else []))
             text = os.path.relpath(tgt, here or ".")
             entries.append((rel, "link", text))
     return entries
